@@ -12,7 +12,8 @@ From Mos Require Import model.Utf model.Nom Gen.ParserTables model.Parser model.
 Open Scope N_scope.
 
 Definition ci_eq (a b : text) : Prop := Forall2 (fun x y => ascii_lower x = ascii_lower y) a b.
-Definition atom_ok (a : atom) : Prop := match a with AKw _ canon orig => ci_eq orig canon | _ => True end.
+(* a piece a statement may consist of: keywords spell their canonical form up to ASCII case; no end-of-file piece *)
+Definition atom_ok (a : atom) : Prop := match a with AKw _ canon orig => ci_eq orig canon | AEof _ _ => False | _ => True end.
 Definition pieces (l : list atom) : list piece := map (fun a => (span_atom a, exact_atom a)) l.
 
 Definition inv (st : pstate) : Prop := ignore_next st = true -> errors st <> [].
@@ -418,4 +419,38 @@ Proof.
   split.
   - destruct Hs as [Hs1 Hs2]. split; intros H; [apply Hs1 in H|apply Hs2 in H]; exact H.
   - rewrite Hf. destruct Hr as [H1 [O1 L1]]. split; [exact H1|split; [exact O1|exact L1]].
+Qed.
+
+(* two piece lists that the soundness statement cannot tell apart *)
+Definition aequiv (l1 l2 : list atom) : Prop :=
+  pieces l1 = pieces l2 /\ (Forall atom_ok l1 -> Forall atom_ok l2) /\ (lossy l2 = true -> lossy l1 = true).
+Lemma exact_pieces l : exact l = concat (map snd (pieces l)).
+Proof. unfold exact, pieces. rewrite map_map. reflexivity. Qed.
+Lemma aequiv_refl l : aequiv l l.
+Proof. repeat split; auto. Qed.
+Lemma aequiv_app a b c d : aequiv a b -> aequiv c d -> aequiv (a ++ c) (b ++ d).
+Proof.
+  intros [P1 [O1 L1]] [P2 [O2 L2]]. split; [|split].
+  - rewrite !pieces_app. congruence.
+  - intros H. apply Forall_app in H. apply Forall_app. split; [apply O1|apply O2]; apply H.
+  - rewrite !lossy_app. intros H. apply orb_true_iff in H. apply orb_true_iff. destruct H; [left; auto|right; auto].
+Qed.
+Lemma sound_equiv {A} P (a1 a2 : A -> list atom) (p : parser A) :
+  sound P a1 p -> (forall v, aequiv (a1 v) (a2 v)) -> sound P a2 p.
+Proof.
+  intros H E st i st' res Hp. destruct (H _ _ _ _ Hp) as [Hs Hr]. split; [assumption|].
+  destruct res as [v r| |]; auto. destruct (E v) as [E1 [E2 E3]]. destruct Hr as [H1 [O1 L1]]. split; [|split].
+  - intros HP. destruct (H1 HP) as [X T]. rewrite exact_pieces in *. rewrite <- E1. split; assumption.
+  - auto.
+  - intros Hi Hl. apply L1; auto.
+Qed.
+Lemma map_sound_equiv {A B} P (sa : A -> list atom) (sb : B -> list atom) (f : A -> B) (p : parser A) :
+  sound P sa p -> (forall a, aequiv (sa a) (sb (f a))) -> sound P sb (map_p f p).
+Proof.
+  intros H Hf st i st' res E. unfold map_p in E. destruct (p st i) as [st1 [a r| |x]] eqn:Ep; inversion E; subst;
+    destruct (H _ _ _ _ Ep) as [Hs Hr]; split; auto.
+  destruct (Hf a) as [E1 [E2 E3]]. destruct Hr as [H1 [O1 L1]]. split; [|split].
+  - intros HP. destruct (H1 HP) as [X T]. rewrite exact_pieces in *. rewrite <- E1. split; assumption.
+  - auto.
+  - intros Hi Hl. apply L1; auto.
 Qed.
